@@ -20,8 +20,10 @@ pub enum Res {
 
 pub const TRANSIENT_MSG: &str = "verif-transient";
 
+/// The transient error the sources / sinks inject: a layered error (an outer kind wrapping an `io::Error` of another
+/// kind), as timeout or TLS adapters produce. The error a call reports must be this error, not its cause.
 pub fn transient_error() -> io::Error {
-    io::Error::new(io::ErrorKind::Other, TRANSIENT_MSG)
+    io::Error::new(io::ErrorKind::TimedOut, io::Error::new(io::ErrorKind::NotConnected, TRANSIENT_MSG))
 }
 
 pub fn classify_read(r: Result<Option<Vec<u8>>, Error>) -> Res {
@@ -42,7 +44,7 @@ pub fn classify_err(e: Error) -> Res {
                 Res::UnexpectedEof
             } else if e.kind() == io::ErrorKind::WriteZero {
                 Res::WriteZero
-            } else if e.to_string().contains(TRANSIENT_MSG) {
+            } else if e.kind() == io::ErrorKind::TimedOut && e.to_string().contains(TRANSIENT_MSG) {
                 Res::Transient
             } else {
                 Res::OtherIo(format!("{:?}", e.kind()))
@@ -110,10 +112,16 @@ pub struct Expected {
 /// The list-of-values reference model of a framed stream: `avail` bytes of the
 /// concatenated frames are delivered, then the stream ends.
 pub fn model(frames: &[Frame], avail: usize, max_len: usize) -> Expected {
+    model_limits(frames, avail, &|_| max_len)
+}
+
+/// The same with a limit that may change between frames (`limit(i)` is in force when frame `i` is read).
+pub fn model_limits(frames: &[Frame], avail: usize, limit: &dyn Fn(usize) -> usize) -> Expected {
     let mut values = Vec::new();
     let mut o = 0usize;
     let mut max_frame = 0usize;
-    for f in frames {
+    for (fi, f) in frames.iter().enumerate() {
+        let max_len = limit(fi);
         let rem = avail.saturating_sub(o);
         if rem == 0 {
             return Expected { values, terminal: Res::CleanEnd, max_frame };
@@ -224,8 +232,14 @@ impl Menu {
 }
 
 /// A recycled buffer handed to `with_buffer`. Kind 1: stale content (7 bytes) and spare capacity; kind 2: empty with
-/// spare capacity (`Vec::with_capacity`); kind 3: two stale bytes (shorter than a length prefix).
+/// spare capacity (`Vec::with_capacity`); kind 3: two stale bytes (shorter than a length prefix); kind 4: empty with
+/// 640 KiB of capacity.
 pub fn dirty_buffer(kind: u8) -> Vec<u8> {
+    if kind == 4 {
+        // empty, with more capacity than the default maximum frame length: the capacity of a recycled buffer must not
+        // raise the limit
+        return Vec::with_capacity(640 * 1024);
+    }
     let mut v = Vec::with_capacity(64);
     match kind {
         1 => v.extend_from_slice(&[0xde, 0xad, 0xbe, 0xef, 0x81, 0x05, 0x00]),
@@ -238,7 +252,7 @@ pub fn dirty_buffer(kind: u8) -> Vec<u8> {
 /// The constructors a scenario can use: 0 = `new`, 1..=3 = `with_buffer(dirty_buffer(kind))`. Scenarios built with
 /// `with_buffer` also call `set_max_len(smaller)` + `set_max_len(original)` at every quiescent point where a frame may
 /// be in flight (a setter must not disturb a frame whose length was already accepted).
-pub const CTORS_ALL: [u8; 4] = [0, 1, 2, 3];
+pub const CTORS_ALL: [u8; 5] = [0, 1, 2, 3, 4];
 
 /// Reference encoding of a `Vec<u8>` value: a definite array of unsigned integers, shortest heads.
 pub fn array_payload(v: &[u8]) -> Vec<u8> {
